@@ -440,13 +440,20 @@ class Ops:
         elif c.kind == "ref" and c.rkind == "dict":
             items = self.ctx.cell(c)[0]
         elif c.kind == "slist":
+            # x in L  <=>  exists k. L[k] is x or L[k] == x ; the comparison is evaluated parametrically in k (results of
+            # contracts applied inside become functions of k, their facts are closed over k)
             k = self.ctx.bound("k_in")
-            if not self.spec and not self.ctx.no_branch and False:
-                pass
             n = self.ctx.slen(c.z)
-            st_item = self.ctx.sitem(c, k)
-            eq = self.py_eq(st_item, x, node)
-            return z3.Exists([k], z3.And(0 <= k, k < n, eq))
+            rng = z3.And(0 <= k, k < n)
+            self.ctx.push_param(k, rng)
+            self.ctx.no_branch += 1
+            try:
+                st_item = self.ctx.sitem(c, k)
+                eq = z3.Or(self.identical_or_false(st_item, x), self.py_eq(st_item, x, node))
+            finally:
+                self.ctx.no_branch -= 1
+                self.ctx.pop_param()
+            return z3.Exists([k], z3.And(rng, eq))
         elif c.kind == "str" and x.kind == "str":
             return z3.Contains(c.z, x.z)
         elif c.kind == "class" and not isinstance(c.cls, str) and c.cls.is_enum(self.index):
